@@ -1129,8 +1129,16 @@ class SMPLayer(Layer):
         """Ask the user to enter the PIN code (a.k.a. Temporary Key)
         """
         self_iocap = self.state.initiator.iocap if self.is_initiator() else self.state.responder.iocap
+        peer_iocap = self.state.responder.iocap if self.is_initiator() else self.state.initiator.iocap
 
-        if self_iocap == IOCAP_KEYBD_ONLY:
+        # Passkey Entry roles (Vol. 3, Part H, Table 2.8): a KeyboardOnly device always inputs
+        # the passkey; a KeyboardDisplay device inputs the passkey shown by a peer that can only
+        # display, and when both devices are KeyboardDisplay the initiator displays and the
+        # responder inputs. In every other case we generate and display the passkey.
+        if (self_iocap == IOCAP_KEYBD_ONLY or
+            (self_iocap == IOCAP_KEYBD_DISPLAY and
+             (peer_iocap == IOCAP_DISPLAY_ONLY or peer_iocap == IOCAP_DISPLAY_YESNO or
+              (peer_iocap == IOCAP_KEYBD_DISPLAY and not self.is_initiator())))):
             print("Enter pin code: ")
             pin_code = input()
             return int(pin_code)
